@@ -18,6 +18,10 @@ Init == l = 1
 (*                   later `listen` finds its prompt already delivered (C08: "before the next statement runs")        *)
 (*   "stdout_closed" standard output is a pipe without a reader: the first SayLine fails, which is a runtime error    *)
 (*                   reported on standard error (its wording is the operating system's)                               *)
+(* The recorder also emits a line of kind "nondeterministic" (a repeat of the same command gave another observation),          *)
+(* "model-disagrees" (the library's run is not the run Interp.tla prescribes for the program) or "colour-changes-text" (with      *)
+(* colours forced on, as on a terminal, the text between the colour sequences is not the plain text) when it sees such a thing:   *)
+(* no run of Cli.tla produces these kinds, so the line is rejected.                                                               *)
 Accepts(r) ==
   LET f == Final(r.p) IN
   IF r.p.usage = "bad" \/ r.p.file = "missing" THEN r.proc.stdout = "" /\ r.proc.code # 0
